@@ -22,9 +22,9 @@ STUBS = ["scheduler (sim/simsched.cpp: decides which real thread runs at every b
 CHECKS = {
     "C06": {
         "batches": [("C06", "asan", 4, 4000, 60000)],
-        "rule": ("one evaluation = one simulated run: 1-6 processor instances (24 kinds: FirFilter R/C, FftFilter R/C, FIRDecimator, FIRInterpolator, "
+        "rule": ("one evaluation = one simulated run: 1-6 processor instances (26 kinds: FirFilter R/C, FftFilter R/C and with complex taps on a real stream / real taps on a complex stream, FIRDecimator, FIRInterpolator, "
                  "FIRRateConverter, FIRResampler, Delay R/C, MedianFilter, MAFilter R/C, HilbertFilter, Tuner, Agc R/C, Compressor, Limiter, NoiseGate, "
-                 "LMS/NLMS R/C, RLS R/C) with seeded parameters, streams and framings, interleaved on 1-4 simulated threads with churn. "
+                 "LMS/NLMS R/C, RLS R/C) with seeded parameters, streams (gaussian, impulses, steps, bursts with silence, tones, 60 dB level changes, 120 dB bursts) and framings, constructed lazily (next to live siblings; 15 % get a twin with equal integer parameters) and interleaved on 1-4 simulated threads with churn. "
                  "5 % of the instances (thorough 12 %) additionally enumerate ALL 2^(n-1) compositions of their 2..9 (11) granule stream, each on a fresh instance. A case is non-trivial when the stream was cut into >= 2 frames; cases are distinct by (kind, log2 memory class, framing style, "
                  "{frame shorter than memory, single-sample frame, frame spanning two internal blocks}, exact composition for the <=12-granule "
                  "bitmask framings)."),
@@ -35,7 +35,7 @@ CHECKS = {
     "C14": {
         "batches": [("C14", "asan", 4, 6000, 200000)],
         "rule": ("one evaluation = one simulated run of 1-3 streams: Tuner (fs 8..1e5, integer / half-integer / rational / arbitrary fractional f with "
-                 "|f| <= fs/2, stream of 2..7 x fs samples so that the internal counter wraps several times) or HilbertFilter (requested length 31..401 "
+                 "|f| <= fs/2, stream of 2..7 x fs samples so that the internal counter wraps several times; 4 % with fs in (65 536, 100 000] and |f| near fs/2; a quarter of the tuners get a sibling with the same fs and integer part of f) or HilbertFilter (requested length 31..401 "
                  "odd and even), each cut into frames by the transport. Non-trivial: Tuner stream with >= 1 counter wrap and >= 2 frames, or Hilbert "
                  "stream with >= 2 frames; distinct by (processor, log2 fs or length class, fractional/negative f, wrap inside frame / on boundary, "
                  "number of wraps, framing style)."),
@@ -61,7 +61,7 @@ CHECKS = {
         "batches": [("C12", "asan", 4, 12000, 100000)],
         "rule": ("one evaluation = one simulated history of one adaptive filter (LMS / NLMS / RLS, real or complex, length 2..64, parameters over the stable "
                  "range, unknown noise-free FIR system no longer than the filter, white input): 1-10 events {frame(n), n single-sample frames, lock, unlock} "
-                 "followed by a settling phase whose length is the liveness bound computed from the parameters. Non-trivial: >= 1 lock toggle strictly "
+                 "(plus input pauses; 1 in 2 unknown systems has a bulk delay) followed by a settling phase whose length is the liveness bound computed from the parameters. Oracles per call: e = d - y, a-priori output from coeffs() read before the call, locked = fixed FIR with unchanged coeffs(), and on single-sample LMS/NLMS calls the update recursion c' = leak c + mu e conj(u) (/(|u|^2 + eps)). Non-trivial: >= 1 lock toggle strictly "
                  "inside the frame sequence; distinct by (algorithm, type, event pattern)."),
         "assumptions": ["complex data: either conjugation convention (sum c*x or sum conj(c)*x) is accepted, but one per run, and the same one for the convergence target",
                         "convergence bounds: NLMS 5*14*L/(mu(2-mu))+200 samples (leak 1); RLS 2x the first n with (lambda^n/delta)/R_n < 3e-4 plus 10 L; runs "
@@ -73,7 +73,7 @@ CHECKS = {
         "batches": [("C18", "asan", 4, 4000, 300000)],
         "rule": ("one evaluation = one scenario: a preamble (Zadoff-Chu, PN +-1 or chirp, length 16..512, amplitude over 60 dB, optional noise >= 30 dB below it) "
                  "arrives so that its last sample falls on a seeded stream index (every residue modulo frame_len(), biased to the first/last sample of a frame and to "
-                 "preambles straddling a frame boundary); the transport delivers 1-4 frames per call; 15 % of the streams carry no preamble. A scenario is judged "
+                 "preambles straddling a frame boundary); the transport delivers 1-4 frames per call and keeps delivering after the detection (nothing more may be reported); 15 % of the streams carry no preamble; 2 in 7 detectors have already processed another stream and were reset(); 1 in 5 histories contains a call of unsupported length that must be rejected without side effect. A scenario is judged "
                  "only if an independent long-double evaluation of the documented score gives the true peak >= 1.1 x threshold and every other score <= 0.9 x "
                  "threshold (others are discarded and counted). Distinct by (preamble kind, length/8, residue of the last sample modulo the frame length, straddle, "
                  "multi-frame call, noise)."),
@@ -84,7 +84,7 @@ CHECKS = {
     "C19": {
         "batches": [("C19", "asan", 4, 6000, 1000000), ("C19", "tsan", 4, 2000, 200000)],
         "rule": ("one evaluation = one simulated run of 1-4 (thorough: 8) threads, each executing a prefix of generator calls (rand / randn / randi in every "
-                 "overload incl. single-value and negative ranges, awgn real/complex), rng(s), and a suffix, interleaved by the scheduler at basic-block edges "
+                 "overload incl. single-value, negative and wider-than-2^31 ranges, awgn real/complex), rng(s) (30 %: the same seed twice with 0-2 calls in between), and a suffix, interleaved by the scheduler at basic-block edges "
                  "(every thread is the other threads' disturbance: they seed and draw between any two of its draws). Non-trivial: >= 2 threads or >= 3 ops; "
                  "distinct by the sequence of (thread, op kind, first argument)."),
         "assumptions": ["reference: the same suffix after rng(s) in a fresh OS thread, and again after a different generated prefix; exact (bitwise) equality",
@@ -97,7 +97,7 @@ CHECKS = {
         "batches": [("C10", "asan", 1, 3000, 60000), ("C10", "asan", 2, 3000, 60000), ("C10", "asan", 4, 3000, 60000)],
         "rule": ("one evaluation = one simulated history of 8-40 requests (thorough: 1 % of the runs have 10^4 requests over 40 lengths) over an alphabet of "
                  "3-8 lengths mixing cache-bypass sizes, powers of two, primes <= 41, primes > 41, composites sharing prime sub-plans and even-real lengths: "
-                 "fft/rfft/ifft/irfft/fft(x,n)/xcorr/hilbert/FftFilter, construct-and-keep FftPlan/FftPlanR/IfftPlan/IfftPlanR/CztPlan in 4 slots, solve through "
+                 "fft/rfft/ifft/irfft/fft(x,n)/xcorr/hilbert/FftFilter/czt (a = 1 and a != 1), construct-and-keep FftPlan/FftPlanR/IfftPlan/IfftPlanR/CztPlan in 4 slots, solve through "
                  "a kept plan, drop it; 1-3 threads in a hand-over chain (a thread exits, its caches are destroyed, its kept plans live on in the successor). "
                  "Three builds with DSPLIB_FFT_CACHE_SIZE 1, 2, 4. Non-trivial: >= 1 eviction; distinct by (capacity, request sequence). states = distinct "
                  "(capacity, complex key list, real key list); transitions = distinct (state, request, state')."),
@@ -126,7 +126,7 @@ CHECKS = {
         "batches": [("C05", "asan", 4, 20000, 4000000)],
         "rule": ("one evaluation = one call program: 8 pool arrays, then 1-12 ops from a catalogue of 40 op kinds covering the public entry points of include/dsplib/*.h "
                  "(array arithmetic / comparison / index lists / masks / slices incl. initializer lists, container utilities, reductions, fft/ifft/rfft/irfft/hilbert "
-                 "with pad/truncate, every plan kind with array and raw-pointer solve, czt, all 24 stream processors, adaptive filters, FIR design, windows, "
+                 "with pad/truncate, every plan kind with array and raw-pointer solve, czt, all 26 stream-processor kinds, adaptive filters, FIR design, windows, "
                  "resamplers, median, stft/istft/iscola, welch/mscohere, snr/sinad/thd, xcorr/finddelay/gccphat/findpeaks, random, isprime/factor/nextprime/primes, "
                  "from_file over the simulated stdio layer, PreambleDetector, Tuner/Delay/Agc, dynamics constructors). In 80 % of the programs one op (in a third, "
                  "several) is a MISUSE op: exactly one length/index relation is perturbed (0, 1, 2, 3, n-1, n+1, 2n; index lists with -1, -n, n, n+2, empty; RHS "
